@@ -7,6 +7,7 @@ open GV.ScalarMul
 #print axioms C03_precomputeLattice
 #print axioms C03_split_precomputed
 #print axioms C03_jointScalarMul
+#print axioms C03_jointScalarMulC
 #print axioms C03_mulGLV
 #print axioms C03_mulGLVLattice
 #print axioms C03_variants_agree
